@@ -242,3 +242,16 @@ MUTANTS += [
     ("c12_state_leak_levels", "C12", "solver.py", "    nlvls = len(levels)\n\n    # halo to deal", "    nlvls = len(levels)\n    levels = steady_state_transport_solver.__dict__.setdefault(('lv', nlvls, len(z)), levels)\n\n    # halo to deal"),
     # c12_manager_threads_scale dropped: the module-level fft2/ifft2 always re-create a 1-thread manager, so the FFT thread count never varies
 ]
+
+MUTANTS += [
+    # ---- state keyed too coarsely (sibling calls in one process differ in one argument)
+    ("c09_grid_memo_without_z0", "C09", "pbl_model.py",
+     "    zeta = np.arange(0.0, np.squeeze(zetamx).item() + dzeta, dzeta)\n",
+     "    _k = (n, float(zm), float(np.squeeze(h)), float(np.squeeze(zmx)))\n    _memo = globals().setdefault('_ZETA', {})\n    if _k not in _memo:\n        _memo[_k] = np.arange(0.0, np.squeeze(zetamx).item() + dzeta, dzeta)\n    zeta = _memo[_k].copy()\n"),
+    ("c09_psi_zm_memo_without_mol", "C09", "pbl_model.py",
+     "            ustar = absum * kap / (np.log(zm / z0) + psi(zm / mol))\n",
+     "            _memo = globals().setdefault('_PSIZM', {})\n            if float(zm) not in _memo:\n                _memo[float(zm)] = psi(zm / mol)\n            ustar = absum * kap / (np.log(zm / z0) + _memo[float(zm)])\n"),
+    ("c12_wavenumber_memo_without_dx", "C12", "solver.py",
+     "    Lx, Ly = np.meshgrid(lx, ly)\n",
+     "    _memo = globals().setdefault('_LXLY', {})\n    if (nlx, nly, nxe, nye) not in _memo:\n        _memo[(nlx, nly, nxe, nye)] = np.meshgrid(lx, ly)\n    Lx, Ly = _memo[(nlx, nly, nxe, nye)]\n"),
+]
